@@ -23,13 +23,24 @@ var rec struct {
 	mu      sync.Mutex
 	classes map[string]int
 	calls   int
+	// swallowed: user code ignored the error of a nested MarshalEncode and continued
+	swallowed bool
 }
 
 func resetRec() {
 	rec.mu.Lock()
 	rec.classes = map[string]int{}
 	rec.calls = 0
+	rec.swallowed = false
 	rec.mu.Unlock()
+}
+
+// swallowedNestedError reports whether user code of this case ignored the error of a nested
+// MarshalEncode call and went on writing.
+func swallowedNestedError() bool {
+	rec.mu.Lock()
+	defer rec.mu.Unlock()
+	return rec.swallowed
 }
 
 func saw(class string) {
@@ -129,6 +140,11 @@ func runScript(e *jsontext.Encoder, s string) error {
 			err = popBelow(e, strict, tw)
 		case 'N':
 			err = json.MarshalEncode(e, nestedPool[arg])
+			if err != nil && !strict {
+				rec.mu.Lock()
+				rec.swallowed = true
+				rec.mu.Unlock()
+			}
 		default:
 			panic("c02: bad op " + op)
 		}
